@@ -15,7 +15,7 @@ use std::io::Cursor;
 
 pub const META: PropMeta = PropMeta {
     level: "exploration",
-    rule: "stateful: a file (reference-encoded table or fragmented movie, muxer output of a generated history, or a canned file) plus a generated schedule of 0..200 reader calls (kind in {read_sample, sample_offset, sample_count, track accessors, movie accessors}, track in existing + missing, sample id in valid + {0, count+1, 2^31, u32::MAX}) with repeats and failing calls, executed on ONE reader; oracle: the normalised result of every call equals the result of the same single call on a FRESH reader. Determinism: the same muxing history run twice (once on another thread) gives identical bytes; the same bytes opened twice give equal ftyp/moov/moofs/emsgs (PartialEq) and equal JSON (compared as parsed values, so ilst item order is irrelevant). Non-trivial = schedule of >= 5 calls that is not sorted ascending and involves >= 2 tracks or a failing call followed by a succeeding one. Distinct = hash of (file fingerprint, schedule).",
+    rule: "stateful: a file (reference-encoded table or fragmented movie, muxer output of a generated history, or a canned file) plus a generated schedule of 0..200 reader calls (kind in {read_sample, sample_offset, sample_count, track accessors, movie accessors}, track in existing + missing, sample id in valid + {0, count+1, u32::MAX, aliases of valid ids modulo 2^8/2^16/2^24/2^31}, missing track ids far away or aliasing an existing id) with repeats and failing calls, executed on ONE reader; oracle: the normalised result of every call equals the result of the same single call on a FRESH reader. Determinism: the same muxing history run twice (once on another thread) gives identical bytes, and so does a run with a real pause of 1.25 s (thorough 2.6 s) before a generated call ('paced' stage, bounded by count); the same bytes opened twice give equal ftyp/moov/moofs/emsgs (PartialEq) and equal JSON (compared as parsed values, so ilst item order is irrelevant). Non-trivial = schedule of >= 5 calls that is not sorted ascending and involves >= 2 tracks or a failing call followed by a succeeding one. Distinct = hash of (file fingerprint, schedule).",
     assumptions: &["results are normalised to (bytes, start, duration, offset, sync) / None / error text"],
 };
 
@@ -170,12 +170,21 @@ pub fn resolve(r: &Rd, raw: &[(u8, u16, u8, u16)]) -> Vec<Call> {
             // tracks: existing ones plus one missing id
             let n = ids.len() + 1;
             let ti = (*tf as usize * n) >> 16;
-            let track = if ti < ids.len() { ids[ti] } else { 0x7777_0001 };
+            // the missing id is either far away or an alias of an existing id modulo 2^8 / 2^16 / 2^24
+            // (what a packed cache key or a truncating conversion would confuse it with)
+            let track = if ti < ids.len() {
+                ids[ti]
+            } else if ids.is_empty() || idf & 1 == 0 {
+                0x7777_0001
+            } else {
+                ids[(*idf as usize >> 3) % ids.len()].wrapping_add(1u32 << [8, 16, 24][(*idf as usize >> 1) % 3])
+            };
             let count = counts.get(&track).copied().unwrap_or(0);
             let id = match sel % 8 {
                 0 => 0,
                 1 => count.wrapping_add(1),
-                2 => 1u32 << 31,
+                // out of range, but equal to a valid id modulo 2^8 / 2^16 / 2^24 / 2^31
+                2 => (1 + ((*idf as u64 * count.clamp(1, 4096) as u64) >> 16) as u32).wrapping_add(1u32 << [8, 16, 24, 31][*idf as usize & 3]),
                 3 => u32::MAX,
                 _ => {
                     if count == 0 {
